@@ -335,6 +335,7 @@ type loopDesc struct {
 	modRange map[*ssa.Alloc][][2]int // leaf ranges written (nil entry = whole cell)
 	modHeap  map[string]bool
 	rangeIdx *ssa.Alloc
+	autoMods bool
 }
 
 type loopInfo struct {
@@ -793,9 +794,39 @@ func (e *Engine) enterBlock(st *State, fr *Frame) bool {
 		return false
 	}
 	if ld.contract == nil || e.Mode == ModeSpec {
+		if fr.autoCut != nil && fr.autoCut[fr.block.Index] {
+			// back edge of a loop that was cut without an invariant: nothing to preserve
+			st.dead = true
+			return true
+		}
 		fr.visits[fr.block.Index]++
-		if fr.visits[fr.block.Index] > 100 {
-			engineErr("loop at %s in %s needs an invariant (unrolled 100 times)", e.pos(firstPos(fr.block)), fr.fn)
+		// unroll freely while iterations add nothing to the path condition (trip count and branches
+		// decided concretely); once an iteration has forked, allow a few more and then cut
+		if fr.loopPC == nil {
+			fr.loopPC = map[int]int{}
+		}
+		if fr.visits[fr.block.Index] == 1 {
+			fr.loopPC[fr.block.Index] = len(st.pc)
+		}
+		symbolic := len(st.pc) > fr.loopPC[fr.block.Index]
+		if fr.visits[fr.block.Index] > unrollLimit || (symbolic && fr.visits[fr.block.Index] > 3 && e.Mode != ModeSpec) {
+			if e.Mode == ModeSpec {
+				engineErr("loop at %s in %s needs an invariant (unrolled %d times)", e.pos(firstPos(fr.block)), fr.fn, unrollLimit)
+			}
+			// A loop without a contract whose trip count is not settled by unrolling: cut it here with
+			// the trivial invariant (everything the loop can write is forgotten).  Sound; what the
+			// function's clauses need from the loop is then simply not available to them.
+			nt := fmt.Sprintf("loop without a contract at %s cut with the trivial invariant after %d unrollings", e.pos(firstPos(fr.block)), fr.visits[fr.block.Index]-1)
+			if !ld.autoMods {
+				ld.autoMods = true
+				e.Notes = append(e.Notes, nt)
+			}
+			e.frameCheck(st, firstPos(fr.block))
+			e.havocLoop(st, fr, ld)
+			if fr.autoCut == nil {
+				fr.autoCut = map[int]bool{}
+			}
+			fr.autoCut[fr.block.Index] = true
 		}
 		return false
 	}
@@ -813,48 +844,10 @@ func (e *Engine) enterBlock(st *State, fr *Frame) bool {
 		// the frame must hold here before the loop head forgets what was written so far
 		e.frameCheck(st, where)
 		// havoc
-		for _, a := range ld.modCells {
-			ck := cellKey{fr.id, a}
-			if _, live := st.cells[ck]; !live {
-				continue
-			}
-			v, as := freshVal("loop$"+a.Comment, derefType(a.Type()))
-			if rs := ld.modRange[a]; rs != nil {
-				old := st.cells[ck]
-				nv := append(Val{}, old...)
-				for _, r := range rs {
-					copy(nv[r[0]:r[0]+r[1]], v[r[0]:r[0]+r[1]])
-				}
-				v = nv
-			}
-			st.cells[ck] = v
-			for _, x := range as {
-				st.assume(x)
-			}
-		}
 		if trace {
 			fmt.Fprintf(os.Stderr, "loop %s havoc set: %v\n", loopName, ld.modHeap)
 		}
-		framed := e.Mode == ModeVerify && e.TopFC != nil && e.TopFC.HasAssigns && !e.TopFC.Trusted
-		if ld.modHeap["*"] {
-			st.heap.havocPrefixF("*", framed)
-		} else {
-			for p := range ld.modHeap {
-				st.heap.havocPrefixF(p, framed)
-			}
-		}
-		if ld.rangeIdx != nil {
-			v := st.cells[cellKey{fr.id, ld.rangeIdx}]
-			st.assume(Le(IntC(-1), v[0]))
-		}
-		// positions of iterators over symbolic strings are loop-carried state too
-		for _, it := range st.iters {
-			if it.kind == "strsym" {
-				np := Fresh("strpos", SInt)
-				st.assume(And(Le(IntC(0), np), Le(np, strLen(it.sref))))
-				it.posT = np
-			}
-		}
+		e.havocLoop(st, fr, ld)
 		for _, c := range lc.Invariants {
 			st.assume(e.evalClause(st, ld.fc, c, e.loopClauseArgs(st, fr, c, ld), e.preHeap))
 		}
@@ -878,6 +871,51 @@ func (e *Engine) enterBlock(st *State, fr *Frame) bool {
 	}
 	st.dead = true
 	return true
+}
+
+const unrollLimit = 100
+
+// havocLoop forgets everything the loop can write (local cells, heap prefixes, iterator positions).
+func (e *Engine) havocLoop(st *State, fr *Frame, ld *loopDesc) {
+	for _, a := range ld.modCells {
+		ck := cellKey{fr.id, a}
+		if _, live := st.cells[ck]; !live {
+			continue
+		}
+		v, as := freshVal("loop$"+a.Comment, derefType(a.Type()))
+		if rs := ld.modRange[a]; rs != nil {
+			old := st.cells[ck]
+			nv := append(Val{}, old...)
+			for _, r := range rs {
+				copy(nv[r[0]:r[0]+r[1]], v[r[0]:r[0]+r[1]])
+			}
+			v = nv
+		}
+		st.cells[ck] = v
+		for _, x := range as {
+			st.assume(x)
+		}
+	}
+	framed := e.Mode == ModeVerify && e.TopFC != nil && e.TopFC.HasAssigns && !e.TopFC.Trusted
+	if ld.modHeap["*"] {
+		st.heap.havocPrefixF("*", framed)
+	} else {
+		for p := range ld.modHeap {
+			st.heap.havocPrefixF(p, framed)
+		}
+	}
+	if ld.rangeIdx != nil {
+		v := st.cells[cellKey{fr.id, ld.rangeIdx}]
+		st.assume(Le(IntC(-1), v[0]))
+	}
+	// positions of iterators over symbolic strings are loop-carried state too
+	for _, it := range st.iters {
+		if it.kind == "strsym" {
+			np := Fresh("strpos", SInt)
+			st.assume(And(Le(IntC(0), np), Le(np, strLen(it.sref))))
+			it.posT = np
+		}
+	}
 }
 
 func firstPos(b *ssa.BasicBlock) token.Pos {
